@@ -428,3 +428,168 @@ Proof.
     - rewrite andb_false_r. apply H3; auto. }
   rewrite E. rewrite <- H1. rewrite <- filter_map_kn. rewrite map_map. reflexivity.
 Qed.
+
+(* ------------------------------------------------------------ imports of a built module *)
+
+Definition memb (n : name) (l : list name) : bool := existsb (Nat.eqb n) l.
+
+(* first occurrences, in order *)
+Definition nodup_first (l : list name) : list name :=
+  fold_left (fun acc n => if memb n acc then acc else acc ++ [n]) l [].
+
+Definition import_names (ds : list decl) : list name :=
+  map snd (filter (fun d => ikind_eqb (fst d) KImport) ds).
+
+Lemma nodup_first_snoc l n :
+  nodup_first (l ++ [n]) = if memb n (nodup_first l) then nodup_first l else nodup_first l ++ [n].
+Proof. unfold nodup_first. rewrite fold_left_app. reflexivity. Qed.
+
+Lemma memb_In n l : memb n l = true <-> In n l.
+Proof.
+  unfold memb. rewrite existsb_exists. split.
+  - intros (x & Hx & He). apply Nat.eqb_eq in He. subst. exact Hx.
+  - intro H. exists n. split; [exact H | apply Nat.eqb_refl].
+Qed.
+
+Lemma memb_nodup_first l : forall n, memb n (nodup_first l) = true <-> In n l.
+Proof.
+  induction l as [|x l IH] using rev_ind; intro n.
+  - simpl. split; [discriminate | intros []].
+  - rewrite nodup_first_snoc, in_snoc. destruct (memb x (nodup_first l)) eqn:Hx.
+    + rewrite IH. split; [auto|]. intros [H|H]; [exact H|]. subst. apply IH. exact Hx.
+    + rewrite memb_In, in_snoc, <- memb_In, IH. tauto.
+Qed.
+
+Lemma import_names_snoc ds k n :
+  import_names (ds ++ [(k, n)]) = import_names ds ++ (if ikind_eqb k KImport then [n] else []).
+Proof.
+  unfold import_names. rewrite filter_app, map_app. simpl. destruct (ikind_eqb k KImport); reflexivity.
+Qed.
+
+Lemma imports_of_append m it :
+  imports_of (append_item m it) = imports_of m ++ (if ikind_eqb (ik it) KImport then [iname it] else []).
+Proof.
+  unfold imports_of. simpl. rewrite filter_app, map_app. simpl.
+  destruct (ikind_eqb (ik it) KImport); reflexivity.
+Qed.
+
+Lemma imports_of_set_exp m i : imports_of (set_exp m i) = imports_of m.
+Proof.
+  unfold imports_of. simpl. generalize (mitems m). intro l. revert i.
+  induction l as [|x l IH]; intros [|i]; simpl; auto.
+  - destruct (ikind_eqb (ik x) KImport); reflexivity.
+  - destruct (ikind_eqb (ik x) KImport); simpl; rewrite IH; reflexivity.
+Qed.
+
+Definition IMP (m : modl) (ds : list decl) : Prop :=
+  imports_of m = nodup_first (import_names ds) /\
+  (forall n ti, tab_find m n = Some ti -> exists k, In (k, n) ds).
+
+Lemma IMP_empty : IMP empty_mod [].
+Proof. split; [reflexivity | intros n ti H; discriminate]. Qed.
+
+(* the shapes an add_item result can have, as far as imports and the table's domain go *)
+Lemma IMP_step m ds k n m' (keep : bool) :
+  IMP m ds ->
+  (forall n', tab_find m' n' <> None -> tab_find m n' <> None \/ n' = n) ->
+  imports_of m' = imports_of m ++ (if keep then [] else [n]) ->
+  (keep = true -> ikind_eqb k KImport = false \/ In n (import_names ds)) ->
+  (keep = false -> ikind_eqb k KImport = true /\ ~ In n (import_names ds)) ->
+  IMP m' (ds ++ [(k, n)]).
+Proof.
+  intros [I1 I2] Htab Himp Hk Hd. split.
+  - rewrite Himp, import_names_snoc, I1. destruct keep.
+    + rewrite app_nil_r. destruct (Hk eq_refl) as [H|H].
+      * rewrite H, app_nil_r. reflexivity.
+      * destruct (ikind_eqb k KImport); [|rewrite app_nil_r; reflexivity].
+        rewrite nodup_first_snoc. apply memb_nodup_first in H. rewrite H. reflexivity.
+    + destruct (Hd eq_refl) as [H1 H2]. rewrite H1, nodup_first_snoc.
+      destruct (memb n (nodup_first (import_names ds))) eqn:Hm; [|reflexivity].
+      apply memb_nodup_first in Hm. contradiction.
+  - intros n' ti H. destruct (Htab n' ltac:(rewrite H; discriminate)) as [Hn|Hn].
+    + destruct (tab_find m n') as [tj|] eqn:Ht; [|contradiction].
+      destruct (I2 n' tj Ht) as [k' Hk']. exists k'. apply in_snoc. left. exact Hk'.
+    + subst n'. exists k. apply in_snoc. right. reflexivity.
+Qed.
+
+Lemma imports_of_retab m n i : imports_of (retab m n i) = imports_of m.
+Proof. reflexivity. Qed.
+
+Lemma In_import_names ds n : In (KImport, n) ds -> In n (import_names ds).
+Proof.
+  intro H. unfold import_names. apply in_map_iff. exists (KImport, n). split; [reflexivity|].
+  apply filter_In. split; [exact H | reflexivity].
+Qed.
+
+Lemma import_names_In ds n : In n (import_names ds) -> In (KImport, n) ds.
+Proof.
+  unfold import_names. rewrite in_map_iff. intros ([k m] & Hs & Hf). simpl in Hs. subst m.
+  apply filter_In in Hf. destruct Hf as [Hin Hk]. simpl in Hk. apply ikind_eqb_eq in Hk. subst. exact Hin.
+Qed.
+
+Ltac solve_tab n :=
+  let n' := fresh "n'" in let Hn' := fresh "Hn'" in
+  intros n' Hn'; simpl in Hn';
+  repeat rewrite ?tab_find_retab, ?tab_find_append, ?tab_find_set_exp in Hn';
+  first [ left; exact Hn'
+        | destruct (Nat.eqb_spec n n'); [right; congruence | left; exact Hn'] ].
+
+Ltac solve_imports :=
+  repeat rewrite ?imports_of_retab, ?imports_of_append, ?imports_of_set_exp; simpl;
+  rewrite ?app_nil_r; reflexivity.
+
+Ltac imp_keep n :=
+  eapply (IMP_step _ _ _ _ _ true);
+  [ eassumption | solve_tab n | solve_imports | intros _; left; reflexivity | discriminate ].
+
+Lemma add_item_IMP m ds k n m' :
+  WF m ds -> IMP m ds -> add_item m k n = inl m' -> IMP m' (ds ++ [(k, n)]).
+Proof.
+  intros W I H. unfold add_item in H.
+  destruct (tab_find m n) as [ti|] eqn:Ht.
+  2:{ inversion H; subst m'. destruct k.
+      - (* a new import *)
+        eapply (IMP_step _ _ _ _ _ false); [exact I | solve_tab n | solve_imports | discriminate |].
+        intros _. split; [reflexivity|]. intro Hin. apply import_names_In in Hin.
+        exact (wf_none m ds W n Ht KImport Hin).
+      - imp_keep n.
+      - imp_keep n.
+      - imp_keep n.
+      - imp_keep n.
+      - imp_keep n. }
+  destruct (nth_error (mitems m) ti) as [t|] eqn:Hn; [|discriminate].
+  destruct (wf_tab m ds W n ti Ht) as (t0 & A0 & Hname & Hst). rewrite Hn in A0. inversion A0; subst t0.
+  unfold name_state in Hst.
+  destruct (ik t) eqn:Hk.
+  - destruct k; try discriminate. inversion H; subst m'.
+    eapply (IMP_step _ _ _ _ _ true); [exact I | solve_tab n | solve_imports | | discriminate].
+    intros _. right. destruct I as [_ I2]. destruct (I2 n ti Ht) as [k' Hk'].
+    pose proof (Hst k' Hk'). subst k'. apply In_import_names. exact Hk'.
+  - destruct k; try discriminate; simpl in H; inversion H; subst m'; imp_keep n.
+  - destruct k; try discriminate; simpl in H; inversion H; subst m'; imp_keep n.
+  - destruct k; try discriminate.
+    + destruct (iexp t); inversion H; subst m'; imp_keep n.
+    + inversion H; subst m'; imp_keep n.
+  - destruct k; try discriminate.
+    + destruct (iexp t); inversion H; subst m'; imp_keep n.
+    + inversion H; subst m'; imp_keep n.
+  - discriminate.
+Qed.
+
+Lemma build_from_IMP ds : forall m pre m',
+  WF m pre -> IMP m pre -> build_from m ds = inl m' -> IMP m' (pre ++ ds).
+Proof.
+  induction ds as [|[k n] ds IH]; intros m pre m' W I H; simpl in H.
+  - inversion H; subst. rewrite app_nil_r. exact I.
+  - destruct (add_item m k n) as [m1|e] eqn:Ha; [|discriminate].
+    change (pre ++ (k, n) :: ds) with (pre ++ [(k, n)] ++ ds). rewrite app_assoc.
+    apply (IH m1 _ m' (add_item_WF m pre k n m1 W Ha) (add_item_IMP m pre k n m1 W I Ha) H).
+Qed.
+
+(* the imports of a built module: the names declared `import`, once each, in order of first
+   declaration *)
+Lemma build_imports_spec_proof : forall ds m, build ds = inl m ->
+  imports_of m = nodup_first (import_names ds).
+Proof.
+  intros ds m H. destruct (build_from_IMP ds empty_mod [] m WF_empty IMP_empty H) as [I _]. exact I.
+Qed.
